@@ -80,4 +80,24 @@ def curveByOid (oid : Bytes) : Option Curve := namedCurves.find? (·.oid == oid)
 /-- every generator in the table lies on its curve -/
 theorem namedCurves_generators_on_curve : namedCurves.all (fun c => c.onCurve c.G) = true := by decide +kernel
 
+/-- what the ECDSA reference never accepts: a signature of the wrong length, r or s outside [1, n-1], a public point off the curve -/
+theorem ecdsaVerify_guards (c : Curve) (q : Nat × Nat) (hash sig : Bytes) (h : c.ecdsaVerify q hash sig = true) :
+    sig.length = 2 * c.orderLen ∧ 0 < bytesToNat (sig.take c.orderLen) ∧ bytesToNat (sig.take c.orderLen) < c.n ∧
+    0 < bytesToNat (sig.drop c.orderLen) ∧ bytesToNat (sig.drop c.orderLen) < c.n ∧ c.onCurve (some q) = true := by
+  unfold Curve.ecdsaVerify at h
+  simp only [] at h
+  split at h
+  · exact absurd h (by simp)
+  · rename_i hl
+    split at h
+    · exact absurd h (by simp)
+    · rename_i hr
+      split at h
+      · exact absurd h (by simp)
+      · rename_i hc
+        simp only [bne_iff_ne, ne_eq, Decidable.not_not] at hl
+        simp only [Bool.or_eq_true, beq_iff_eq, decide_eq_true_eq, not_or, Nat.not_le] at hr
+        simp only [Bool.not_eq_true', Bool.not_eq_false] at hc
+        refine ⟨hl, ?_, hr.1.2, ?_, hr.2, hc⟩ <;> omega
+
 end Shm.Crypto
